@@ -6,3 +6,5 @@ import PhystGen.C14_Source
 import PhystGen.C06_Source
 import PhystGen.ConfigSrc
 import PhystGen.C19_Source
+import PhystGen.VersionSrc
+import PhystGen.C08_Source
